@@ -25,12 +25,14 @@ from common import qlit, qlist, zlit, coqc, coqc_many, parse_evals, parse_zlist,
 import c07_impl as I
 
 THEOREMS = ["C07_policy_domain_complete", "C07_policy_model_meets_spec", "C07_policy_missing_data",
-            "C07_policy_returned_rate", "C07_policy_wavelength", "C07_policy_isotope_wavelength", "C07_history_independent",
+            "C07_policy_returned_rate", "C07_policy_wavelength", "C07_policy_isotope_wavelength", "C07_history_independent", "C07_policy_aligned_check_sound",
             "C07_rate2_node_partial", "C07_rate3_node_partial", "C07_beam_node_partial",
             "C07_beam_at_reference_partial", "C07_beam_cx_node_partial", "C07_nonneg", "C07_guard_zero",
             "C07_range_policy", "C07_exec_instance_lawful", "C07_checked_axis_is_axis",
             "C07_cubic1d_through_knots", "C07_cubic1d_fast_evaluator", "C07_oracle_laws_from_cubic1d", "C07_beam_cx_node_cubic",
-            "C07_beam_node_single_axis_cubic", "C07_log_laws_satisfiable", "C07_null_zero_everywhere"]
+            "C07_beam_node_single_axis_cubic", "C07_log_laws_satisfiable", "C07_null_zero_everywhere",
+            "C07_bicubic_through_knots", "C07_tricubic_through_knots", "C07_rate2_node_bicubic", "C07_rate3_node_tricubic",
+            "C07_beam_node_cubic", "C07_rate2_node_bicubic_rounded"]
 
 NODE_REL = 2.0 ** -30          # the Coq comparator's tolerance (Model/C07_Check.v: tol)
 WL_ISO, WL_EL = 400.0, 500.0   # wavelengths stored by the policy probe
@@ -209,7 +211,7 @@ def policy_tie(ctx, rows):
             "Eval vm_compute in (failing (rows_vs_model impl_table)).",
             "Eval vm_compute in (failing (rows_vs_spec impl_table)).",
             "Eval vm_compute in (failing (map (fun r => pout_eqb (code_outcome (fst r)) (snd r)) impl_table)).",
-            "Eval vm_compute in (failing (uncovered all_cases impl_table)).",
+            "Eval vm_compute in (failing [cases_aligned all_cases impl_table]).",
             "Eval vm_compute in [Z.of_nat (length all_cases); Z.of_nat (length impl_table)]."]
     p = ctx.write_gen("Policy.v", "\n".join(txt) + "\n")
     ok, out = coqc(p, timeout=900)
@@ -220,8 +222,8 @@ def policy_tie(ctx, rows):
         return
     vs_model, vs_spec, vs_code, uncovered, sizes = [parse_zlist(v) for v in vals]
     n_dom, n_rows = sizes
-    ctx.obligation("policy domain completely probed (%d cases of all_cases, %d rows)" % (n_dom, n_rows), "tie",
-                   not uncovered and n_dom == n_rows, "uncovered case indices: %s" % uncovered[:20])
+    ctx.obligation("policy domain completely probed, rows in the order of all_cases (%d cases, %d rows)" % (n_dom, n_rows), "tie",
+                   not uncovered and n_dom == n_rows, "rows not aligned with all_cases" if uncovered else "")
     # expected outcomes of the disagreeing rows, computed by Coq
     expected = {}
     if vs_model:
@@ -263,10 +265,12 @@ def policy_tie(ctx, rows):
                    "%d of them under a known finding)" % (n_rows, len(vs_model), len(excluded)), "correspondence",
                    not bad and not harmless and not stray,
                    json.dumps([b[2] for b in (bad + harmless)[:5]], default=str))
-    tie = ["Require Import Cherab.Common.Qx Cherab.Model.C07_Policy Cherab.Gen.C07.Policy.",
+    tie = ["Require Import Cherab.Common.Qx Cherab.Model.C07_Policy Cherab.Proofs.C07_Policy Cherab.Gen.C07.Policy.",
            "Definition excluded : list pcase := [" + ";\n  ".join(coq_case(rows[i][0]) for i, _, _ in excluded) + "].",
-           "Lemma table_ok : wf_on (minus all_cases excluded) impl_table = true.",
+           "Lemma table_aligned : wf_aligned (minus all_cases excluded) (tminus impl_table excluded) = true.",
            "Proof. vm_cast_no_check (eq_refl true). Qed.",
+           "Lemma table_ok : wf_on (minus all_cases excluded) (tminus impl_table excluded) = true.",
+           "Proof. exact (wf_aligned_sound _ _ table_aligned). Qed.",
            "Eval vm_compute in [Z.of_nat (length (minus all_cases excluded))]."]
     ok3, out3 = coqc(ctx.write_gen("Tie.v", "\n".join(tie) + "\n"), timeout=900)
     v3 = parse_evals(out3) if ok3 else []
@@ -935,12 +939,18 @@ def judge_construct(spec, res):
 # Coq case files
 # =================================================================================================
 def q(x):
-    """exact Q literal of a double, written in hexadecimal (parsed ~2x faster by coqc than decimal)"""
+    """exact Q literal of a double: (dq mantissa exponent), mantissa < 2^53 as a primitive-integer literal
+    (Model/C07_Check.v); read ~5x faster by coqc than Qmake with big numerator / denominator"""
     x = float(x)
     if math.isnan(x) or math.isinf(x):
         raise ValueError("non-finite value cannot be a Q literal: %r" % x)
-    n, d = x.as_integer_ratio()
-    return "(Qmake %s %s)" % (hex(n) if n >= 0 else "(-%s)" % hex(-n), hex(d))
+    m, e = math.frexp(abs(x))
+    mi = int(m * 2 ** 53)
+    assert mi * Fraction(2) ** (e - 53) == Fraction(*abs(x).as_integer_ratio())
+    while mi and mi % 2 == 0:
+        mi //= 2
+        e += 1
+    return "(%s %d (%d))" % ("dqn" if (x < 0) else "dq", mi, e - 53)
 
 
 def ql(xs):
@@ -1019,6 +1029,9 @@ def run(ctx):
 
     # ---- (T) policy table ---------------------------------------------------------------------------
     rows = probe_policy(ctx, scratch, cf)
+    _o = {False: 0, True: 1, "el": 0, "iso": 1, "Present": 0, "NoFile": 1, "NoKey": 2}
+    _ai = {a.name: i for i, a in enumerate(I.ACCS)}
+    rows.sort(key=lambda r: (_ai[r[0]["acc"]],) + tuple(_o[r[0][k]] for k in ("pe", "null", "fb", "k1", "k2", "rate_av", "decoy", "wl_iso", "wl_el")))
     ctx.log("policy probe: %d calls" % len(rows))
     pol = policy_tie(ctx, rows) or {}
     ctx.log("policy tie: %s" % {k: pol.get(k) for k in ("domain", "differ_from_model", "excluded_known", "checked_by_lemma")})
@@ -1042,6 +1055,18 @@ def run(ctx):
         ctx.violation("c07:source:openadas.py", "the text of cherab/openadas/openadas.py no longer has the structure the policy model "
                       "is written from (statements not recognised, or a table entry differs); see the policy / history rows for a failing call",
                       {"rows": rows_txt, "wavelength_method_ok": wl_ok, "details": bad_src}, found=False)
+
+    # ---- (S2) the bicubic / tricubic kernels of the model against raysect's source text --------------------------
+    import c07_cubicsrc
+    try:
+        gen_txt = c07_cubicsrc.generate()
+        gen_err = ""
+    except Exception as e:          # fail closed: an unreadable kernel is a broken tie, reported below
+        gen_txt, gen_err = "", "%s: %s" % (type(e).__name__, e)
+    have = open(os.path.join(VERIF, "coq", "Model", "C07_TensorGen.v")).read()
+    ctx.obligation("Model/C07_TensorGen.v (calc_coefficients_2d/_3d, evaluate_cubic_2d/_3d) is exactly what the translator "
+                   "produces from the installed raysect source (%s)" % c07_cubicsrc.source_path()[1], "tie",
+                   gen_txt == have, gen_err or "generated text differs from the compiled model file")
 
     # ---- (T') histories on long-lived providers ---------------------------------------------------------
     hs = run_histories(ctx, scratch, cf, quick)
@@ -1151,17 +1176,17 @@ def run(ctx):
     specs = subs
     ctx.log('implementation runs done')
     # shard: <= 600 entries per file, object definitions included where used
-    per = 600
+    per = 1200
     files = []
     for lo in range(0, len(pt_lines), per):
         chunk = pt_lines[lo:lo + per]
         used = sorted({pt_meta[lo + i][0] for i in range(len(chunk))})
         defs = [d for si, d in obj_lines if si in used]
-        txt = ("Require Import Cherab.Common.Qx Cherab.Model.C07_Rates Cherab.Model.C07_Check.\nOpen Scope Q_scope.\n"
+        txt = ("Require Import Cherab.Common.Qx Cherab.Model.C07_Rates Cherab.Model.C07_Check.\nFrom Coq Require Import Uint63.\nOpen Scope Q_scope.\n"
                + "\n".join(defs) + "\nDefinition results : list bool := [\n  " + ";\n  ".join(chunk)
                + "].\nEval vm_compute in (failing results).\n")
         files.append((ctx.write_gen("cases_%03d.v" % (lo // per), txt), lo, len(chunk)))
-    head = ("Require Import Cherab.Common.Qx Cherab.Model.C07_Rates Cherab.Model.C07_Check.\n"
+    head = ("Require Import Cherab.Common.Qx Cherab.Model.C07_Rates Cherab.Model.C07_Check.\nFrom Coq Require Import Uint63.\n"
             "Eval vm_compute in (failing [cf_ok %s]).\n" % q(cf))
     cfp = ctx.write_gen("cf.v", head)
     res = coqc_many([f for f, _, _ in files] + [cfp], timeout=900)
@@ -1271,9 +1296,10 @@ def run(ctx):
                       "source structure (openadas.py, ast)": "exact, kernel-checked lemma source_ok",
                       "conversion factor": "relative 2^-40 of the exact SI value"},
         "partial": ["node theorems (C07_*_node_partial) assume oracle_laws; of these the 1-D through-knots laws are now theorems about the "
-                    "Gallina model of raysect's cubic (C07_cubic1d_through_knots, C07_oracle_laws_from_cubic1d); still assumed: the 2-D / 3-D "
-                    "interpolators pass through their knots and the log10 / 10** laws of libm -- checked numerically at every generated grid "
-                    "point, not proved",
+                    "Gallina model of raysect's cubic (C07_cubic1d_through_knots, C07_oracle_laws_from_cubic1d) and the 2-D / 3-D ones about the "
+                    "kernels generated from raysect's source (C07_bicubic_through_knots, C07_tricubic_through_knots; derivative estimates "
+                    "universally quantified); still assumed: the log10 / 10** laws of libm (exact form, or relative-error form in "
+                    "C07_rate2_node_bicubic_rounded) -- checked numerically at every generated grid point, not proved",
                     "finiteness of extrapolated doubles is checked on the implementation only",
                     "the policy theorems hold for the cases of all_cases minus the rows excluded under known findings "
                     "(%d of %d)" % (pol.get("excluded_known", 0), pol.get("domain", 0))],
